@@ -268,6 +268,7 @@ psParseUnknownPubKeyMem(psPool_t *pool,
 {
     int32_t rc;
     unsigned char *data;
+    unsigned char *dataAlloc = NULL; /* what psPemTryDecode() allocated */
     psSizeL_t data_len;
     psBool_t mustFreeData = PS_TRUE;
 # if defined USE_RSA || defined USE_ECC
@@ -287,6 +288,11 @@ psParseUnknownPubKeyMem(psPool_t *pool,
         data = (unsigned char *)keyBuf;
         data_len = keyBufLen;
         mustFreeData = PS_FALSE;
+    }
+    else
+    {
+        /* psRsaParseAsnPubKey() advances 'data': keep the pointer to free */
+        dataAlloc = data;
     }
 
 # ifdef USE_RSA
@@ -369,8 +375,8 @@ exit_free_data:
 
     if (mustFreeData)
     {
-        psAssert(data != keyBuf);
-        psFree(data, pool);
+        psAssert(dataAlloc != keyBuf);
+        psFree(dataAlloc, pool);
     }
 
     return rc;
